@@ -493,11 +493,16 @@ func (n *Nodis) ZUnionStore(destination string, keys []string, weights []float64
 		}
 		items := n.ZUnion(keys, weights, aggregate)
 		if len(items) == 0 {
+			// an empty result: the destination ceases to exist
+			tx.delKey(destination)
 			return nil
 		}
+		// the destination is replaced, never merged with its previous content
+		result := zset.NewSortedSet()
 		for _, item := range items {
-			meta.value.(*zset.SortedSet).ZAdd(item.Member, item.Score)
+			result.ZAdd(item.Member, item.Score)
 		}
+		meta.setValue(result)
 		n.signalModifiedKey(destination, meta)
 		n.notify(func() []patch.Op {
 			return []patch.Op{{Type: patch.OpTypeZUnionStore, Data: &patch.OpZUnionStore{Key: destination, Keys: keys, Weights: weights, Aggregate: aggregate}}}
@@ -574,11 +579,16 @@ func (n *Nodis) ZInterStore(destination string, keys []string, weights []float64
 			return nil
 		}
 		if len(items) == 0 {
+			// an empty result: the destination ceases to exist
+			tx.delKey(destination)
 			return nil
 		}
+		// the destination is replaced, never merged with its previous content
+		result := zset.NewSortedSet()
 		for _, item := range items {
-			meta.value.(*zset.SortedSet).ZAdd(item.Member, item.Score)
+			result.ZAdd(item.Member, item.Score)
 		}
+		meta.setValue(result)
 		n.signalModifiedKey(destination, meta)
 		n.notify(func() []patch.Op {
 			return []patch.Op{{Type: patch.OpTypeZInterStore, Data: &patch.OpZInterStore{Key: destination, Keys: keys, Weights: weights, Aggregate: aggregate}}}
